@@ -1,8 +1,180 @@
 (* C02 -- EVM transactions execute exactly as go-ethereum's reference state transition.
-   Statements only; proofs in Proofs/TransitionProofs.v, Proofs/GethRefine.v, Proofs/EvmRefine.v, Proofs/C02Bisim.v. *)
-From Evm Require Import EvmAbs GethStateDB EvmStateDB Transition.
+
+   evermint runs go-ethereum's interpreter (core/vm of the fork), so "for all programs" reduces to the two
+   components evermint replaces: the StateDB behind the core/vm.StateDB interface and the transition
+   wrapper around the interpreter.  This file states, over the models the `gethdiff` driver replays
+   (Model/GethStateDB.v, Model/EvmStateDB.v, Model/Transition.v through Corr/CorrGethDiff.v):
+     - the two StateDB models are bisimilar for every operation sequence the interpreter can issue, with
+       equal observations, including Snapshot / RevertToSnapshot and the end-of-transaction step;
+     - hence any deterministic client (the interpreter) produces the same operation / observation trace on both;
+     - the transition wrappers agree modulo exactly the documented differences (fee pre-paid, custom
+       precompiles and coinbase warm);
+     - outside the interpreter's discipline the two StateDBs ARE distinguishable (_refuted, with witnesses).
+   Statements only; proofs in Proofs/EvmAbsProofs.v, GethRefine.v, EvmRefine.v, C02Bisim.v, TransitionProofs.v. *)
+From Coq Require Import List ZArith Bool.
+From Evm Require Import EvmAbs GethStateDB EvmStateDB Transition EvmAbsProofs GethRefine EvmRefine C02Bisim TransitionProofs.
+Import ListNotations.
 Open Scope Z_scope.
 
-Theorem C02_placeholder : forall m, intrinsic_gas m = intrinsic_gas m.
-Proof. reflexivity. Qed.
-Print Assumptions C02_placeholder.
+(* ------------------------------------------------------------------ the relation R
+   R g e: both states are well formed and have the same abstraction: for every address the same nonce,
+   balance, code, current storage, committed storage and self-destructed flag (an absent account and an
+   empty one are the same view), the same refund counter, access list and logs, and corresponding live
+   snapshots.  [absg g] is the abstract state (Model/EvmAbs.v) both refine. *)
+
+(* R holds initially: two states built from the same EVM view *)
+Theorem C02_R_initial : forall objs store,
+  (forall a, gview (objs a) = eview store (core0 store) a) ->
+  (forall a o, objs a = Some o -> (forall k, g_stor o k = g_orig o k) /\ g_sui o = false) ->
+  (forall a, stor_ok (gview (objs a))) ->
+  wf_core store (core0 store) ->
+  R (ginit objs) (einit store).
+Proof. exact R_init. Qed.
+Print Assumptions C02_R_initial.
+
+(* R means equal EVM views *)
+Theorem C02_R_same_view : forall g e a, R g e -> gview (g_objs (g_cur g) a) = eview (e_orig e) (e_cur e) a.
+Proof. exact R_same_view. Qed.
+Print Assumptions C02_R_same_view.
+
+Theorem C02_R_same_refund_logs : forall g e, R g e ->
+  s_refund (g_side (g_cur g)) = s_refund (e_side (e_cur e)) /\ s_logs (g_side (g_cur g)) = s_logs (e_side (e_cur e)).
+Proof. exact R_same_refund_logs. Qed.
+Print Assumptions C02_R_same_refund_logs.
+
+(* every interface operation the interpreter can issue (disc: Model/EvmAbs.v) succeeds on both, returns equal
+   observations and preserves R; [extra] = the documented extra warm addresses of PrepareAccessList, the same
+   on both sides: evermint is estep_x [coinbase], the reference is go-ethereum plus that one address *)
+Theorem C02_statedb_step : forall extra o g e,
+  R g e -> disc o (absg g) ->
+  exists g' e' og oe,
+    gstep_x extra o g = Some (g', og) /\ estep_x extra o e = Some (e', oe) /\
+    norm_obs o og = norm_obs o oe /\ R g' e' /\
+    astep_x extra o (absg g) = Some (absg g', norm_obs o og).
+Proof. exact step_bisim. Qed.
+Print Assumptions C02_statedb_step.
+
+(* for all operation sequences (induction over list op), including Snapshot/RevertToSnapshot and Finalise/Commit *)
+Theorem C02_statedb_bisim_partial : forall extra ops g e,
+  R g e -> disc_run extra ops (absg g) ->
+  exists g' e' l, run (gstep_x extra) ops g = Some (g', l) /\ run (estep_x extra) ops e = Some (e', l) /\ R g' e'.
+Proof. exact run_bisim. Qed.
+Print Assumptions C02_statedb_bisim_partial.
+
+(* the same statement without the interpreter's discipline is false.  Gap of the _partial theorem: SetState /
+   Suicide only on contract addresses, CreateAccount not on self-destructed addresses, SetNonce(.., n > 0),
+   SetCode after the nonce is set, transfers within the balance, refund counter within uint64, raw Exist only
+   inside evm.Call's prologue (OCallEnter), reverts to live snapshots, access-list operations after
+   PrepareAccessList; and no module-account / multi-denomination addresses (witnesses below). *)
+Definition C02_statedb_bisim_full : Prop := bisim_undisciplined.
+Theorem C02_statedb_bisim_refuted : ~ C02_statedb_bisim_full.
+Proof. exact bisim_undisciplined_refuted. Qed.
+Print Assumptions C02_statedb_bisim_refuted.
+
+(* any deterministic client -- a function from the observation history to the next operation: the interpreter --
+   yields the same operation / observation trace on both implementations *)
+Theorem C02_any_client_same_trace : forall extra client fuel g e hist,
+  R g e -> client_disc extra client fuel (absg g) hist ->
+  exists g' e' tr,
+    drive (gstep_x extra) client fuel g hist = Some (g', tr) /\
+    drive (estep_x extra) client fuel e hist = Some (e', tr) /\ R g' e'.
+Proof. exact client_bisim. Qed.
+Print Assumptions C02_any_client_same_trace.
+
+(* each model refines the abstract EVM-view machine *)
+Theorem C02_geth_refines_abstract : forall extra o s,
+  wf_g s -> wf_a (absg s) -> disc o (absg s) ->
+  exists s' ob, gstep_x extra o s = Some (s', ob) /\ astep_x extra o (absg s) = Some (absg s', norm_obs o ob) /\ wf_g s'.
+Proof. exact gstep_refines. Qed.
+Print Assumptions C02_geth_refines_abstract.
+
+Theorem C02_evermint_refines_abstract : forall extra o s t,
+  rel_e s t -> wf_a t -> disc o t ->
+  exists s' ob t', estep_x extra o s = Some (s', ob) /\ astep_x extra o t = Some (t', norm_obs o ob) /\ rel_e s' t'.
+Proof. exact estep_refines. Qed.
+Print Assumptions C02_evermint_refines_abstract.
+
+(* non-vacuity: a concrete related pair, a disciplined run on it with value transfer, SSTORE, refund, selfdestruct,
+   reverts, a precompile call, logs and the end of the transaction; and what both models answer *)
+Example C02_R_example : R (ginit objs_ex) (einit store_ex).
+Proof. exact R_example. Qed.
+Example C02_disc_run_example : disc_run [9] ops_ex (absg (ginit objs_ex)).
+Proof. exact disc_run_example. Qed.
+
+(* witnesses of what separates the implementations outside the discipline / outside go-ethereum's universe *)
+Theorem C02_raw_exist_differs :
+  exists g e, R g e /\
+    (exists g0 e0 o1 o2, gstep (OAddBalance 7 0) (ginit objs0) = Some (g, o1) /\ estep_x [] (OAddBalance 7 0) (einit store0) = Some (e, o2) /\ g0 = g /\ e0 = e) /\
+    (exists gs es, gstep (OExist 7) g = Some (gs, ObB true) /\ estep_x [] (OExist 7) e = Some (es, ObB false)).
+Proof. exact witness_raw_exist. Qed.
+Print Assumptions C02_raw_exist_differs.
+
+Theorem C02_create_after_suicide_differs :
+  exists l1 l2 g' e',
+    run gstep [OSuicide 200; OCreateAccount 200; OHasSuicided 200] (ginit objs_ex) = Some (g', l1) /\
+    run (estep_x []) [OSuicide 200; OCreateAccount 200; OHasSuicided 200] (einit store_ex) = Some (e', l2) /\
+    nth 2 l1 ObNone = ObB false /\ nth 2 l2 ObNone = ObB true.
+Proof. exact witness_create_after_suicide. Qed.
+Print Assumptions C02_create_after_suicide_differs.
+
+(* known finding C02/gethdiff/prog/panic:value-sent-to-blocked-module-account *)
+Theorem C02_module_account_credit_panics :
+  estep_x [] (OAddBalance 55 1) (einit store_mod) = None /\
+  exists g', gstep (OAddBalance 55 1) (ginit objs0) = Some (g', ObNone).
+Proof. exact witness_module_account. Qed.
+Print Assumptions C02_module_account_credit_panics.
+
+Theorem C02_multi_denom_not_empty :
+  exists e', estep_x [] (OEmpty 66) (einit store_other) = Some (e', ObB false) /\
+  a_empty (eview store_other (core0 store_other) 66) = true.
+Proof. exact witness_multi_denom. Qed.
+Print Assumptions C02_multi_denom_not_empty.
+
+(* ------------------------------------------------------------------ the transition wrapper *)
+
+(* same error class, or same used gas / gas handed to the interpreter / nonce bump, with the sender paying gas used x
+   price either way: go-ethereum through buyGas and the refund, evermint through the ante handler's payment and the
+   refund; the fee collector keeps exactly gas used x price; only go-ethereum pays the coinbase *)
+Theorem C02_transition_equiv_mod_fees : forall m e s o,
+  affordable m e s ->
+  match geth_transition m e s o with
+  | TErr x => evermint_transition true m e (after_ante m s) o = TErr x
+  | TOk used given dg fee b =>
+      exists de,
+        evermint_transition true m e (after_ante m s) o = TOk used given de 0 b
+        /\ dg = de - m_gas m * m_price m
+        /\ dg = - (used * m_price m)
+        /\ fee_collector_refund true m used = m_gas m * m_price m - used * m_price m
+  end.
+Proof. exact transition_equiv. Qed.
+Print Assumptions C02_transition_equiv_mod_fees.
+
+Example C02_affordable_example :
+  affordable (mkMsg 0 100000 10 12 2 5 3 1 false 1 2 false) (mkEnv 8 true false 30000000) (mkSender 0 0 5000000).
+Proof. unfold affordable. cbn. repeat split; discriminate || (intro; discriminate). Qed.
+
+Theorem C02_used_gas_bounds : forall m e s o used given d fee b ig,
+  wf_msg m ->
+  geth_transition m e s o = TOk used given d fee b ->
+  intrinsic_gas m = Some ig ->
+  0 <= o_evm_used o <= given -> 0 <= o_refund o ->
+  given = m_gas m - ig /\
+  used = ig + o_evm_used o - refund_amount e (ig + o_evm_used o) (o_refund o) /\
+  0 <= refund_amount e (ig + o_evm_used o) (o_refund o) <= (ig + o_evm_used o) / (if v_london e then 5 else 2) /\
+  ig <= used + refund_amount e (ig + o_evm_used o) (o_refund o) <= m_gas m.
+Proof. exact used_gas_bounds. Qed.
+Print Assumptions C02_used_gas_bounds.
+
+(* the initial access list: go-ethereum's, plus the registered custom precompiles, plus the coinbase -- and nothing else *)
+Theorem C02_initial_access_list_documented : forall sender dst ts cpcs coinbase b,
+  (forall c, In c cpcs -> c <> 0) ->
+  al_has (al_prepare sender dst (evermint_precompiles cpcs) ts [coinbase]) b =
+  al_has (al_prepare sender dst std_precompiles ts []) b || memZ b cpcs || (b =? coinbase).
+Proof. exact initial_access_list_documented. Qed.
+Print Assumptions C02_initial_access_list_documented.
+
+(* before commit 6ed9b4a the zero address was warm whenever a custom precompile was registered (DESIGN section 7 #7) *)
+Theorem C02_zero_addr_warm_before_fix : forall c cpcs,
+  memZ 0 (evermint_precompiles_before_fix (c :: cpcs)) = true /\ memZ 0 std_precompiles = false.
+Proof. intros. split; [apply zero_warm_before_fix|apply zero_cold_in_reference]. Qed.
+Print Assumptions C02_zero_addr_warm_before_fix.
